@@ -102,14 +102,14 @@ def run(ctx, rep, tier):
     B = Bench(ctx, rep)
     known = {k["class"] for k in vlib.known_for(PID)}
     samples = []
-    t0 = time.time()
-    budget = 300 if tier == "quick" else 6000
+    t0 = time.process_time()
+    budget = 700 if tier == "quick" else 9000
     fams = list(families(tier, ("digits", "octal", "words"))) + list(families(tier, ("any",)))
     if tier == "thorough":
         fams += list(families(tier, ("kwarg",)))
     n = 0
     for name, spec, assume in fams:
-        if time.time() - t0 > budget:
+        if time.process_time() - t0 > budget:
             rep.coverage["truncated_at_family"] = name
             break
         rd, dev = outcome_value(B, spec, assume, "dev")
